@@ -37,6 +37,9 @@ def execute(plan):
                 part = getattr(exc, "partial", None)
                 sim.rec("read-error", "R", (type(exc).__module__ + "." + type(exc).__name__, None if part is None else len(part), getattr(exc, "expected", None)))
                 return
+            if m is None:
+                sim.rec("read-error", "R", ("None", None, None))
+                return
             sim.rec("read", "R", (m.service_id, m.method_id, m.client_id, m.session_id, m.protocol_version, m.interface_version, int(m.message_type), int(m.return_code), bytes(m.payload)))
 
     def setup():
@@ -68,8 +71,54 @@ def execute(plan):
         sim.stats["reset"] += 1
         state["reader"].set_exception(ConnectionResetError("simulated reset"))
 
+    def other(k, o):
+        """another connection of the same process (its own StreamReader and consumer): concurrent with the main one, or
+        used up / abandoned before it. Its reads are logged under another actor and judged separately."""
+        actor = f"R{k + 2}"
+        odata = bytes.fromhex(o["hex"])
+        ocuts = sorted(set(c for c in o.get("cuts", []) if 0 < c < len(odata)))
+        ob = [0] + ocuts + [len(odata)]
+        ochunks = [odata[a:b] for a, b in zip(ob, ob[1:]) if b > a]
+        ogap = o.get("gap", 0.001)
+
+        async def consume2(reader):
+            rd = header.SOMEIPReader(reader) if o.get("wrapper") else None
+            while True:
+                try:
+                    m = await (rd.read() if rd else header.SOMEIPHeader.read(reader))
+                except BaseException as exc:  # noqa: B902
+                    part = getattr(exc, "partial", None)
+                    sim.rec("read-error", actor, (type(exc).__module__ + "." + type(exc).__name__, None if part is None else len(part), getattr(exc, "expected", None)))
+                    return
+                if m is None:
+                    sim.rec("read-error", actor, ("None", None, None))
+                    return
+                sim.rec("read", actor, (m.service_id, m.method_id, m.client_id, m.session_id, m.protocol_version, m.interface_version, int(m.message_type), int(m.return_code), bytes(m.payload)))
+
+        def setup2():
+            reader = asyncio.StreamReader(limit=2**16, loop=lp)
+            state[actor] = reader
+            state[actor + "task"] = lp.create_task(consume2(reader))
+            t = o.get("t0", 0.0)
+            for i, ch in enumerate(ochunks):
+                t = t + (ogap if i else 0.0)
+                lp.call_at(t, lambda ch=ch: reader.feed_data(ch))
+            if o.get("end", "eof") == "eof":
+                lp.call_at(t + ogap, reader.feed_eof)
+            elif o.get("end") == "reset":
+                lp.call_at(t + ogap, lambda: reader.set_exception(ConnectionResetError("simulated reset")))
+
+        octx, otag = sim.new_context(actor)
+        sim.at(0.0, "op", (octx, setup2, (actor, "setup")))
+        sim.stats["other_connections"] += 1
+
+    for k, o in enumerate(plan.get("others", [])):
+        other(k, o)
     sim.at(0.0, "op", (ctx, setup, ("R", "setup")))
-    sim.run(plan.get("until", (len(chunks) + 3) * gap + 1.0))
+    horizon = plan.get("t0", 0.0) + (len(chunks) + 3) * gap + 1.0
+    for o in plan.get("others", []):
+        horizon = max(horizon, o.get("t0", 0.0) + (len(o.get("cuts", [])) + 4) * o.get("gap", 0.001) + 1.0)
+    sim.run(plan.get("until", horizon))
     res = Result()
     res.sim, res.log, res.stats = sim, sim.log, sim.stats
     res.op_exc, res.loop_exc, res.swallowed = [], sim.loop.exceptions, sim.swallowed
